@@ -48,6 +48,10 @@ CLAIMED = {
         text="Lean 4 proofs: (1) over a table REGENERATED from the sources on every run, every potentially panicking or token-re-parsing construct in non-test code (unwrap/expect/panic!/unreachable!/format_ident!/Ident::new/parse::<TokenStream>/syn::parse_*) is in a reviewed list that names why it cannot fire or which known finding it is — a new such construct breaks the proof; (2) the allOf-depth recursion returns iff no allOf cycle is reachable (depth_terminates_iff, with the explicit fuel bound) and never returns on a cycle (for all fuel); (3) the three-step module write leaves the target unchanged only when it fails before the first file. The rest of the truth lives in the parser, tokio and the OS, so the check runs the REAL binary on fixtures and generated specs pushed through structure-aware mutators x 4 modes and on unwritable / non-directory / half-blocked targets, observing exit status, signals, time limit and the directory listing with content hashes before/after.",
         note="Partial by nature: termination of the other loops is covered by Lean accepting the model definitions (structural or fuel with sufficiency lemmas in C07/C09/C10), not by a proof about the Rust code; the panic-site scan is regex-level. Known findings: allOf/alias cycles overflow the stack, OPTIONS/TRACE panic, identifier panics, schema-suffix variant panic, oas3 `$ref` parse panic, half-written module output.",
         ref="§6 C12"),
+    "C18": dict(
+        text="Lean 4 proofs over a decoration model (visibility on items and fields, bon::Builder derive and #[builder(..)] attributes): erase∘decorate is the identity for every flag setting, so any two settings erase to the same wire skeleton; every decorated item/field carries exactly the requested visibility; builder decorations exist only with builders on. The judge used on the implementation is that same erasure: for every corpus spec the generator is run in-process over the whole 3x2x2x2x{types, client-mod} lattice next to the default run, and the emitted items are compared after erasure (type definitions, members, member types, serde/validation attributes token-for-token), with only header constants, helper/builder methods and imports allowed to appear or disappear, and the requested visibility checked on every item, field, inherent method and associated constant.",
+        note="Partial by nature: that the modelled decorations are ALL that the flags change is what the lattice comparison measures; it is not a theorem about the generator. Known finding: header constants are always `pub`.",
+        ref="§6 C18"),
 }
 PENDING = ["C01","C02","C03","C04","C05","C06","C07","C08","C10","C11","C12","C13","C14","C15","C16","C17","C18","C19","C20"]
 
